@@ -66,6 +66,15 @@ func (m *Machine) slot(i int) (int, *Tree) {
 	return i, m.Slots[i]
 }
 
+// sel spreads a key selector (programs draw them from 0..63) over a big key universe.
+func (m *Machine) sel(op Op) int {
+	k := op.K
+	if m.W.Cfg.IsBig() && !op.Raw {
+		return k*7919 + k/7
+	}
+	return k
+}
+
 // ErrSkipped marks an op that had no applicable target (e.g. delete on an empty tree).
 var ErrSkipped = errors.New("op skipped")
 
@@ -115,16 +124,16 @@ func (m *Machine) Step(op Op) error {
 		vn := op.V
 		switch op.Kind {
 		case OpInsert:
-			ki = mod(op.K, poolLen)
+			ki = mod(m.sel(op), poolLen)
 		case OpInsertNew:
-			ki, ok = AbsentKey(t.Model, poolLen, op.K)
+			ki, ok = AbsentKey(t.Model, poolLen, m.sel(op))
 		case OpUpdate:
-			ki, ok = PresentKey(t.Model, op.K)
+			ki, ok = PresentKey(t.Model, m.sel(op))
 			if ok && t.Model[ki] == vn {
 				vn = vn + 1
 			}
 		case OpInsertSame:
-			ki, ok = PresentKey(t.Model, op.K)
+			ki, ok = PresentKey(t.Model, m.sel(op))
 			if ok {
 				vn = t.Model[ki]
 			}
@@ -145,8 +154,53 @@ func (m *Machine) Step(op Op) error {
 		if err := m.mutated(si, t); err != nil {
 			return err
 		}
+	case OpBulkIns:
+		stride := bulkStride(op.V, poolLen)
+		start := mod(m.sel(op), poolLen)
+		for i := 0; i < op.N && i < poolLen; i++ {
+			ki := (start + i*stride) % poolLen
+			_, present := t.Model[ki]
+			if err := w.Insert(t, ki, (ki+op.V)%4); err != nil {
+				return err
+			}
+			if present {
+				m.Ev.Updates++
+			} else {
+				m.Ev.Inserts++
+			}
+			if h := t.M.Height(); h > m.Ev.MaxHeight {
+				m.Ev.MaxHeight = h
+			}
+		}
+		if err := m.mutated(si, t); err != nil {
+			return err
+		}
+	case OpBulkDel:
+		if len(t.Model) == 0 {
+			return ErrSkipped
+		}
+		keys := t.Model.Keys()
+		stride := bulkStride(op.V, len(keys))
+		start := mod(m.sel(op), len(keys))
+		hBefore := t.M.Height()
+		for i := 0; i < op.N && i < len(keys); i++ {
+			ki := keys[(start+i*stride)%len(keys)]
+			if _, ok := t.Model[ki]; !ok {
+				continue
+			}
+			if err := w.Delete(t, ki); err != nil {
+				return err
+			}
+			m.Ev.Deletes++
+		}
+		if t.M.Height() < hBefore {
+			m.Ev.HeightDrops++
+		}
+		if err := m.mutated(si, t); err != nil {
+			return err
+		}
 	case OpDelete, OpDeleteTop:
-		ki, ok := PresentKey(t.Model, op.K)
+		ki, ok := PresentKey(t.Model, m.sel(op))
 		if !ok {
 			return ErrSkipped
 		}
@@ -206,7 +260,7 @@ func (m *Machine) Step(op Op) error {
 			return err
 		}
 	case OpDelWrong:
-		ki, ok := PresentKey(t.Model, op.K)
+		ki, ok := PresentKey(t.Model, m.sel(op))
 		if !ok || w.Cfg.Val == VNil { // with nil-only values there is no non-matching value
 			return ErrSkipped
 		}
@@ -221,7 +275,7 @@ func (m *Machine) Step(op Op) error {
 		readOnly = true
 		touched = ki
 	case OpDelAbsent:
-		ki, ok := AbsentKey(t.Model, poolLen, op.K)
+		ki, ok := AbsentKey(t.Model, poolLen, m.sel(op))
 		if !ok {
 			return ErrSkipped
 		}
@@ -232,7 +286,7 @@ func (m *Machine) Step(op Op) error {
 		readOnly = true
 		touched = ki
 	case OpGet:
-		touched = mod(op.K, poolLen)
+		touched = mod(m.sel(op), poolLen)
 		readOnly = true
 	case OpSize:
 		readOnly = true
